@@ -166,6 +166,9 @@ def main():
     ip_stats = inplace_lib.stage(ck, outs, stub=False)
     # scheduler memory bookkeeping: the compilations above + a cascade-heavy corpus of its own (small SRAM targets, Dedicated_Sram)
     sched_outs = sched_lib.corpus(ck, 1200 if ck.thorough else 100) if ck.replay_arg is None else []
+    if ck.replay_arg is None:
+        # generated live-range sets through the real use_fast_storage_for_feature_maps / FastStorageComponentAllocator
+        sched_outs += sched_lib.stub_fast(ck.rng, 3000 if ck.thorough else 300)
     sc_stats = sched_lib.stage(ck, outs + sched_outs)
     ck.finish({
         **lr_stats,
